@@ -99,6 +99,9 @@ func (m *Mutex) Unlock() {
 		r.ready(w)
 	}
 	m.waiters = m.waiters[:0]
+	if r.cfg.UnlockPoints {
+		r.point("after Mutex.Unlock")
+	}
 }
 
 // Locker mirrors sync.Locker.
